@@ -20,10 +20,18 @@ def work_dir(tag: str = "case") -> str:
     return path
 
 
-def run_case(case: Dict[str, Any], folder: Optional[str] = None, hashseed: str = "0", extra_args: Tuple[str, ...] = (), audit_log: Optional[str] = None, outdir: Optional[str] = None) -> Tuple[cli.CliResult, str, str, str]:
-    """Materialize the case and run its entry point; returns (result, ini, ods, outdir)."""
+def run_case(
+    case: Dict[str, Any],
+    folder: Optional[str] = None,
+    hashseed: str = "0",
+    extra_args: Tuple[str, ...] = (),
+    audit_log: Optional[str] = None,
+    outdir: Optional[str] = None,
+    paths: Optional[Tuple[str, str]] = None,
+) -> Tuple[cli.CliResult, str, str, str]:
+    """Materialize the case (unless `paths` = already written (ini, ods)) and run its entry point; returns (result, ini, ods, outdir)."""
     folder = folder or work_dir()
-    ini, ods = filegen.materialize(case, folder)
+    ini, ods = paths if paths else filegen.materialize(case, folder)
     outdir = outdir or os.path.join(folder, "out")
     args = cli.build_args(
         ini,
